@@ -171,6 +171,18 @@ fn gen_offset(rng: &mut Rng) -> i32 {
 }
 
 fn gen_rule_date(rng: &mut Rng, month_lo: u32, month_hi: u32) -> RuleDate {
+    // the days around 29 February are where the Jn and n forms differ from each other and
+    // between leap and common years: aim a share of the rules right at them
+    if month_lo <= 3 && rng.chance(1, 6) {
+        return match rng.below(6) {
+            0 => RuleDate::J(59),
+            1 => RuleDate::J(60),
+            2 => RuleDate::J(61),
+            3 => RuleDate::N(58),
+            4 => RuleDate::N(59),
+            _ => RuleDate::N(60),
+        };
+    }
     match rng.below(5) {
         0 => {
             // Jn inside the month window
@@ -253,10 +265,11 @@ pub fn synth(rng: &mut Rng) -> Synth {
         _ => 3,
     };
     let with_leaps = rng.chance(1, 10);
-    let n_trans = match rng.below(5) {
-        0 => 0,
-        1 => 1,
-        2 => rng.range(2, 6) as usize,
+    let n_trans = match rng.below(50) {
+        0 => rng.range(250, 1500) as usize, // larger than any real zone's table
+        1..=9 => 0,
+        10..=19 => 1,
+        20..=29 => rng.range(2, 6) as usize,
         _ => rng.range(2, 40) as usize,
     };
     // transition times strictly increasing between 1900 and 2037 (v1: inside the 32-bit range)
